@@ -223,6 +223,7 @@ def shards(tier, seed):
     out += [("pairs", iface + ":oneobject") for iface in ("wsgi", "asgi", "zerocopy")]
     out.append(("defaultchunk",))
     out.append(("sameobject",))
+    out += [("extorder",) + o for n in (2, 3) for o in itertools.product(("asgi", "zerocopy"), repeat=n)]
     return out
 
 
@@ -358,6 +359,41 @@ def run_shard(desc, tier):
         finally:
             t.close()
         return r
+    if desc[0] == "extorder":
+        from ..core import fresh
+        return fresh.call(__name__, desc, tier)
+    return run_shard_fresh(desc, tier)
+
+
+def run_shard_fresh(desc, tier):
+    r = R()
+    if desc[0] == "extorder":
+        # what one server announces (the zero-copy extension) must not stick to the process: requests with and without the
+        # extension in every order of length <= 3 - each order in an interpreter that has served nothing yet - on fresh
+        # response objects and two files; every answer judged on its own
+        t = Tree()
+        try:
+            paths = [t.file(10), t.file(23)]
+            for order in [tuple(desc[1:])]:
+                for step, iface in enumerate(order):
+                    path = paths[step % 2]
+                    size = os.path.getsize(path)
+                    with open(path, "rb") as f:
+                        data = f.read()
+                    for header, specs in ((None, None), ("bytes=1-4", [("fl", 1, 4)]), ("bytes=0-0,3-", [("fl", 0, 0), ("f", 3)])):
+                        res = call(iface, path, 4, "GET", [("Range", header)] if header else [])
+                        r.count("evaluations")
+                        r.count("distinct_nontrivial")
+                        for kind, text in judge(res, None, size, specs, True, "GET", data):
+                            r.violation(f"extorder:{kind}:{iface}", {"extorder": list(order), "step": step, "range": header},
+                                        f"requests {list(order)} one after another in one process, request {step} ({iface}, Range={header!r}): {text}")
+                        if iface == "asgi" and any(e.get("type") == "http.response.zerocopysend" for e in res.raw_events):
+                            r.violation("extorder:unannounced-zerocopy", {"extorder": list(order), "step": step, "range": header},
+                                        f"requests {list(order)}: request {step} did not announce the zero-copy extension but was sent a zerocopysend event")
+            r.sample({"extorder": ["zerocopy", "asgi"], "requests": "whole file, one range, two ranges"})
+        finally:
+            t.close()
+        return r
     if desc[0] == "defaultchunk":
         # file sizes and range ends around the default chunk size (4096 * 64) with the default chunk size
         D = 4096 * 64
@@ -432,6 +468,9 @@ def finish(merged, tier):
 
 def replay(w):
     r = R()
+    if "extorder" in w:
+        rr = run_shard(("extorder",) + tuple(w["extorder"]), "quick")
+        return bool(rr.viol), {"violations": sorted(rr.viol)}
     if "sameobject" in w:
         rr = run_shard(("sameobject",), "quick")
         return bool(rr.viol), {"violations": sorted(rr.viol), "texts": [v[2][:300] for v in rr.viol.values()]}
